@@ -524,56 +524,90 @@ func checkC13Constructor(p *Prog, r *Report, rMal, rAcc *Rule, vf *ssa.Function)
 			rAcc.Bad(cc+":operands", posOf(cmp), "the certificate hashed is not taken from this connection's PeerCertificates")
 		}
 	}
-	/* Equality edge. */
-	var eqIf *ssa.If
-	eq := 0
-	for _, ref := range *cmp.Referrers() {
-		switch x := ref.(type) {
-		case *ssa.BinOp:
-			for _, r2 := range *x.Referrers() {
-				if ifi, ok := r2.(*ssa.If); ok {
-					dc := decodeCond(ifi.Cond)
-					if k, ok := constInt(dc.Y); ok && 1 == k {
-						eqIf = ifi
-						eq = 1
-						if dc.Eq {
-							eq = 0
+	/* Equality edges: the "equal" outcome of every full-length comparison
+	of the pin (folding helpers and iterators in can leave more than one
+	copy of the comparison). */
+	eqEdges := map[Edge]bool{}
+	eachInstr(closure, func(i ssa.Instruction) {
+		cl, ok := i.(*ssa.Call)
+		if !ok || calleeName(cl.Common()) != calleeName(cmp.Common()) {
+			return
+		}
+		same := len(cl.Common().Args) == len(cmp.Common().Args)
+		for k := range cl.Common().Args {
+			if same && resolveCell(cl.Common().Args[k]) != resolveCell(cmp.Common().Args[k]) && !sameShape(cl.Common().Args[k], cmp.Common().Args[k]) {
+				same = false
+			}
+		}
+		if !same {
+			return
+		}
+		for _, ref := range *cl.Referrers() {
+			switch x := ref.(type) {
+			case *ssa.BinOp:
+				for _, r2 := range *x.Referrers() {
+					if ifi, ok := r2.(*ssa.If); ok {
+						dc := decodeCond(ifi.Cond)
+						if k, ok := constInt(dc.Y); ok && 1 == k {
+							eq := 1
+							if dc.Eq {
+								eq = 0
+							}
+							eqEdges[Edge{ifi.Block().Index, ifi.Block().Succs[eq].Index}] = true
 						}
 					}
 				}
+			case *ssa.If:
+				eqEdges[Edge{x.Block().Index, x.Block().Succs[0].Index}] = true
 			}
-		case *ssa.If:
-			eqIf = x
-			eq = 0
 		}
-	}
+	})
+	/* No way to a return of nil (or of something which may be nil on that
+	path) without one of those edges. */
 	nnil := 0
 	eachInstr(closure, func(i ssa.Instruction) {
 		ret, ok := i.(*ssa.Return)
 		if !ok {
 			return
 		}
-		v := retVal(ret, 0)
-		if !isNilConst(v) {
-			/* Must be definitely non-nil: an error global, call result, or
-			a phi thereof is accepted as "not the nil constant". */
-			for _, x := range valueRoots(v, nil) {
-				if "const" == x.Kind && x.V.(*ssa.Const).IsNil() {
-					nnil++
-					if nil == eqIf || !edgeDominates(eqIf, eq, ret) {
-						rAcc.Bad(cc+":accept-edge", posOf(ret), "the verifier can return nil on a path which has not established equality with the pin")
-					}
-				}
+		mayNil := false
+		for _, x := range valueRoots(retVal(ret, 0), nil) {
+			if "const" == x.Kind && x.V.(*ssa.Const).IsNil() {
+				mayNil = true
 			}
-			return
 		}
-		nnil++
-		if nil == eqIf || !edgeDominates(eqIf, eq, ret) {
-			rAcc.Bad(cc+":accept-edge", posOf(ret), "the verifier returns nil (connection accepted) on a path which has not established equality with the pin")
-		} else {
-			rAcc.OK(cc+":accept-edge", posOf(ret), "return nil only below the equality edge")
+		if mayNil {
+			nnil++
 		}
 	})
+	hit := reachQ{From: entryLoc(closure), NoEdges: eqEdges, TargetF: func(i ssa.Instruction, f nilFacts) bool {
+		ret, ok := i.(*ssa.Return)
+		if !ok {
+			return false
+		}
+		v := retVal(ret, 0)
+		switch nilnessOf(v, f) {
+		case 1:
+			return true
+		case 2:
+			return false
+		}
+		/* Not known on this path: nil if it can be at all. */
+		for _, x := range valueRoots(v, nil) {
+			if "const" == x.Kind && x.V.(*ssa.Const).IsNil() {
+				return true
+			}
+		}
+		return false
+	}}.run()
+	switch {
+	case 0 == len(eqEdges):
+		rAcc.Bad(cc+":accept-edge", posOf(cmp), "the outcome of the comparison is not branched on")
+	case nil != hit:
+		rAcc.Bad(cc+":accept-edge", posOf(hit), "the verifier can return nil (connection accepted) on a path which has not established equality with the pin")
+	default:
+		rAcc.OK(cc+":accept-edge", posOf(cmp), "return nil only below the equality edge")
+	}
 	if 0 == nnil {
 		rAcc.Bad(cc+":accept-edge", closure.Pos(), "the verifier never accepts")
 	}
@@ -713,4 +747,21 @@ func arraySource(ptr ssa.Value, depth int) (ssa.Value, int64) {
 		return nil, 0
 	}
 	return src, at.Len()
+}
+
+// sameShape: two operands are copies of one computation (the same
+// instruction kind over the same callee or field), as left by unrolling or
+// folding; good enough to recognise a second copy of a comparison whose other
+// operand is identical.
+func sameShape(a, b ssa.Value) bool {
+	a, b = stripConv(a, false), stripConv(b, false)
+	switch x := a.(type) {
+	case *ssa.Slice:
+		y, ok := b.(*ssa.Slice)
+		return ok && (nil == x.Low) == (nil == y.Low) && (nil == x.High) == (nil == y.High)
+	case *ssa.Call:
+		y, ok := b.(*ssa.Call)
+		return ok && calleeName(x.Common()) == calleeName(y.Common())
+	}
+	return false
 }
